@@ -272,6 +272,37 @@ func checkPool(run *ev.Run, set *bridge.Set, full string, t corpus.TypeExpr, a *
 			pool = append(pool, member{q, w, "round-tripped", model.Equal(w, a), false})
 		}
 	}
+	// a shallow copy whose first non-empty array field is a shorter view of the SAME backing array (what b.Items =
+	// a.Items[:n-1] produces): it differs from a by one element and must not compare equal
+	if _, td := model.Resolve(s, t); td != nil && td.Kind == "record" && a.Kind == model.KRecord {
+		for _, f := range s.AllFields(td) {
+			fv := a.Fields[f.Name]
+			if fv == nil || fv.Kind != model.KArray || len(fv.Elems) < 2 {
+				continue
+			}
+			cp := reflect.New(base.Elem().Type())
+			cp.Elem().Set(base.Elem())
+			gf := cp.Elem().FieldByName(corpus.GoFieldName(f.Name))
+			ok := false
+			switch {
+			case gf.IsValid() && gf.Kind() == reflect.Slice && gf.Len() >= 2 && gf.CanSet():
+				gf.Set(gf.Slice(0, gf.Len()-1))
+				ok = true
+			case gf.IsValid() && gf.Kind() == reflect.Ptr && !gf.IsNil() && gf.Elem().Kind() == reflect.Slice && gf.Elem().Len() >= 2 && gf.CanSet():
+				short := reflect.New(gf.Elem().Type())
+				short.Elem().Set(gf.Elem().Slice(0, gf.Elem().Len()-1))
+				gf.Set(short)
+				ok = true
+			}
+			if ok {
+				mv := model.Clone(a)
+				mv.Fields[f.Name].Elems = mv.Fields[f.Name].Elems[:len(fv.Elems)-1]
+				pool = append(pool, member{cp, mv, "mutation:field/aliased-array-view-shorter", false, true})
+				run.Count("aliased_array_views", 1)
+			}
+			break
+		}
+	}
 	muts := model.Mutations(s, t, a)
 	if len(muts) > 40 {
 		rng.Shuffle(len(muts), func(i, j int) { muts[i], muts[j] = muts[j], muts[i] })
